@@ -223,6 +223,13 @@ def eval_doc(case):
             return Eval([Failure("well-formed-document-rejected-by-reader:py:%s" % exc_key(e), "%s\ntext=%r" % (exc_msg(e), text[:400]))],
                         sorted(cl), nontrivial=True, ident=text, evals=2)
         raise AssertionError("generated document does not compose: %r: %s" % (text, e))
+    return check_text(text, node, cl)
+
+
+def check_text(text, node, cl, legs=None):
+    import yaml
+    failures = []
+    evals = 0
     try:
         ref, ordered = ref_construct.evaluate(node)
         ref_err = None
@@ -239,7 +246,7 @@ def eval_doc(case):
             cl.add("well-shaped:with-merge")
         if "merge:list>=2" in cl:
             cl.add("well-shaped:with-merge-list>=2")
-    for lname, L in loaders():
+    for lname, L in (legs if legs is not None else loaders()):
         for attempt in (1, 2):
             evals += 1
             try:
@@ -331,8 +338,72 @@ def eval_wrap(case):
 
 
 
+def eval_text(text):
+    """A coverage-guided text (vlib/greybox.py): the first document the pure-Python composer builds is evaluated by the reference
+    rules and loaded by both safe loaders."""
+    import yaml
+    try:
+        node = yaml.compose(text, Loader=yaml.SafeLoader)
+    except (yaml.YAMLError, RecursionError):
+        return Eval([], ["text", "text:not-one-document"], nontrivial=False, ident=text, evals=1)
+    if node is None:
+        return Eval([], ["text", "text:empty"], nontrivial=False, ident=text, evals=1)
+    if _has_cycle(node):
+        # self-referential documents are C13's subject; the reference evaluator is written for acyclic graphs
+        return Eval([], ["text", "text:self-referential"], nontrivial=False, ident=text, evals=1)
+    # the LibYAML leg takes part when its composer builds the same node graph (texts outside the portable subset are C06's subject)
+    legs = [("py", yaml.SafeLoader)]
+    cl = {"text"}
+    if have_c():
+        from vlib.c11_pool import summarize
+        try:
+            if summarize(yaml.compose(text, Loader=yaml.CSafeLoader)) == summarize(node):
+                legs.append(("c", yaml.CSafeLoader))
+                cl.add("text:both-back-ends")
+        except (yaml.YAMLError, UnicodeDecodeError):
+            pass
+    ev = check_text(text, node, cl, legs)
+    # (the reference names the offending tag: free text here, so the class is cut after 'with tag')
+    ev.classes = sorted({c.split(" with tag ")[0] + (" with tag ..." if " with tag " in c else "") for c in ev.classes})
+    return ev
+
+
+def _has_cycle(root):
+    state = {}
+    stack = [(root, iter(_kids(root)))]
+    state[id(root)] = 1
+    while stack:
+        n, it = stack[-1]
+        for c in it:
+            st_ = state.get(id(c))
+            if st_ == 1:
+                return True
+            if st_ is None:
+                state[id(c)] = 1
+                stack.append((c, iter(_kids(c))))
+                break
+        else:
+            state[id(n)] = 2
+            stack.pop()
+    return False
+
+
+def _kids(n):
+    if n.id == "sequence":
+        return list(n.value)
+    if n.id == "mapping":
+        return [x for kv in n.value for x in kv]
+    return []
+
+
+def text_campaign(shard, nshards, tier):
+    from vlib import greybox
+    return greybox.campaign(shard, nshards, tier, PROPERTY, "texts", quick=12000, thorough=600000, valid_only=True)
+
+
 def arms(tier):
-    return [Arm("docs", eval_wrap, docs, quick=20000, thorough=400000)]
+    return [Arm("docs", eval_wrap, docs, quick=20000, thorough=400000),
+            Arm("texts", eval_text, enum=text_campaign)]
 
 
 MIN_CLASS_COUNTS = {"merge:more-than-50-in-one-document": 60, "well-shaped:with-merge": 600, "well-shaped:with-merge-list>=2": 200, "ill-shaped:unhashable key": 100}
